@@ -568,6 +568,10 @@ func (ex *Exec) visit(fr *frame, instr ssa.Instruction) cont {
 	case *ssa.Next:
 		fr.env[instr] = ex.iterNext(fr.get(instr.Iter).(*iterV), instr)
 	case *ssa.FieldAddr:
+		if sp, ok := fr.get(instr.X).(*SymPtrV); ok {
+			fr.env[instr] = &SymPtrV{elems: sp.elems, idx: sp.idx, path: append(append([]int{}, sp.path...), instr.Field)}
+			break
+		}
 		p := fr.get(instr.X).(PtrV)
 		if p == nil {
 			ex.goPanicStr("nil pointer dereference (field)")
@@ -727,6 +731,9 @@ func (ex *Exec) unop(fr *frame, instr *ssa.UnOp) Value {
 	tt := ex.tt
 	switch instr.Op {
 	case token.MUL: // load
+		if sp, ok := x.(*SymPtrV); ok {
+			return ex.loadSym(sp)
+		}
 		p, ok := x.(PtrV)
 		if !ok {
 			panic(fmt.Sprintf("load from %T in %s", x, fr.fn))
@@ -1050,6 +1057,9 @@ func (ex *Exec) indexAddr(fr *frame, instr *ssa.IndexAddr) Value {
 	x := fr.get(instr.X)
 	switch x := x.(type) {
 	case SliceV:
+		if sp := ex.symIndex(fr, instr, x.data); sp != nil {
+			return sp
+		}
 		i := ex.boundIndex(fr.term(instr.Index), instr.Index.Type(), len(x.data))
 		return PtrV(&x.data[i])
 	case PtrV:
@@ -1057,10 +1067,26 @@ func (ex *Exec) indexAddr(fr *frame, instr *ssa.IndexAddr) Value {
 			ex.goPanicStr("nil pointer dereference (index)")
 		}
 		a := (*x).(ArrayV)
+		if sp := ex.symIndex(fr, instr, a); sp != nil {
+			return sp
+		}
 		i := ex.boundIndex(fr.term(instr.Index), instr.Index.Type(), len(a))
 		return PtrV(&a[i])
 	}
 	panic(fmt.Sprintf("IndexAddr on %T", x))
+}
+
+// symIndex: a symbolic index whose element pointer is only loaded from stays symbolic (merged load).
+func (ex *Exec) symIndex(fr *frame, instr *ssa.IndexAddr, elems []Value) Value {
+	idx := fr.term(instr.Index)
+	if idx.IsConst() || len(elems) < 2 || len(elems) > 128 || ex.cfg.NoMerge || ex.speculative || !onlyLoaded(instr, 0) {
+		return nil
+	}
+	i64 := ex.toWidth(idx, instr.Index.Type(), 64)
+	if !ex.branch(ex.tt.Cmp(OUlt, i64, ex.tt.BV(64, uint64(len(elems))))) {
+		ex.goPanicStr(fmt.Sprintf("index out of range [symbolic] with length %d", len(elems)))
+	}
+	return &SymPtrV{elems: elems, idx: i64}
 }
 
 func (ex *Exec) sliceBound(v ssa.Value, fr *frame, def int, max int, what string) int {
